@@ -49,6 +49,20 @@ def streams(rng, tier):
         _pick_expect(rng, c)
         small.append(c)
     out.append(("small", small))
+    # keys unique on both sides (every expectation holds): the place for "unique side" fast paths; rows must
+    # still come out in left-row order, whatever the expectation says
+    uniq = []
+    for _ in range(250 if tier == "quick" else 2500):
+        c = J.gen_pair(rng, how="inner", min_rows=4, force_sort=rng.choice(["int", "str", "hash", "date"]))
+        try:
+            c = J.dedupe_side(J.dedupe_side(c, "L"), "R")
+            ok = [e for e in J.EXPECTS + [None] if J.must_raise(c, c["how"], e) is None]
+        except Exception:                                    # noqa: BLE001
+            continue
+        if ok:
+            c["expect"] = rng.choice(ok)
+            uniq.append(c)
+    out.append(("unique", uniq))
     out.append(("strkeys", [J.gen_pair(rng, how="inner", force_sort="str", min_rows=2) for _ in range(nstr)]))
     out.append(("refused", [J.gen_refused(rng, how="inner") for _ in range(nref)]))
     return out
